@@ -291,3 +291,75 @@ Proof.
     + split; auto.
     + split; [discriminate|]. intros [_ H']. lia.
 Qed.
+
+(** ** Keys: the limit is on bytes; classes and values are unconstrained *)
+
+Lemma ordered_key_accepted_iff maxlen hk k :
+  map_key maxlen true hk k = Some k <-> lenN k <= maxlen.
+Proof.
+  unfold map_key. destruct (N.leb_spec (lenN k) maxlen) as [H|H]; split; intros; auto; try lia.
+  discriminate.
+Qed.
+
+(** a key of [m] runes of [w] bytes each is accepted by an ordered store iff
+    m * w <= limit: the count of runes plays no role *)
+Lemma repeated_rune_key maxlen hk (rune : bytes) (m : nat) :
+  map_key maxlen true hk (List.concat (repeat rune m))
+  = if N.of_nat m * lenN rune <=? maxlen then Some (List.concat (repeat rune m)) else None.
+Proof.
+  unfold map_key. replace (lenN (List.concat (repeat rune m))) with (N.of_nat m * lenN rune); [reflexivity|].
+  unfold lenN. induction m as [|m IH]; cbn [repeat List.concat length]; [reflexivity|].
+  rewrite app_length. lia.
+Qed.
+
+(** Add is AddClass with the empty class *)
+Lemma add_is_addclass_empty maxlen ordered hk jv (S : Type) (step : S -> bop -> S * result) s k v :
+  kv_step maxlen ordered hk jv step s (UAdd k v) = kv_step maxlen ordered hk jv step s (UAddClass k [] v).
+Proof. reflexivity. Qed.
+
+(** a class of any length is stored as given *)
+Lemma class_stored_verbatim s k c v :
+  lookup k s = None -> lookup k (fst (spec_step s (BAdd k c v))) = Some (c, v).
+Proof.
+  intros H. destruct (add_missing_inserts s k c v H) as [_ Hl]. rewrite Hl. now rewrite keqb_refl.
+Qed.
+
+(** ** Values that are not JSON: stored and returned as bytes, refused by the
+    decoding readers, which leave the store unchanged *)
+
+Lemma kv_get_undecodable maxlen ordered hk jv s k mk c v :
+  map_key maxlen ordered hk k = Some mk -> @lookup entry mk s = Some (c, v) -> jv v = false ->
+  kv_step maxlen ordered hk jv spec_step s (UGet k) = (s, RErr EDecode) /\
+  kv_step maxlen ordered hk jv spec_step s (UGetBytes k) = (s, RBytes v).
+Proof.
+  intros Hk Hl Hj. cbn [kv_step]. unfold with_key, post. rewrite Hk. cbn [spec_step].
+  rewrite Hl. cbn [fst snd]. now rewrite Hj.
+Qed.
+
+Lemma kv_setbytes_any_value maxlen ordered hk jv s k mk c v0 v :
+  map_key maxlen ordered hk k = Some mk -> @lookup entry mk s = Some (c, v0) ->
+  snd (kv_step maxlen ordered hk jv spec_step s (USetBytes k v)) = RUnit /\
+  lookup mk (fst (kv_step maxlen ordered hk jv spec_step s (USetBytes k v))) = Some (c, v).
+Proof.
+  intros Hk Hl. cbn [kv_step]. unfold with_key. rewrite Hk. cbn [spec_step]. rewrite Hl.
+  cbn [fst snd]. split; [reflexivity|]. rewrite lookup_sset. now rewrite keqb_refl.
+Qed.
+
+(** a walk hands over the entries before the first undecodable value and
+    then fails with the decode error *)
+Lemma visit_stops_at_undecodable jv (a b : table) k c v :
+  Forall (fun p => jv (snd (snd p)) = true) a -> jv v = false ->
+  visit (do_walk jv WAll) (a ++ (k, (c, v)) :: b) = (map snd a, Some EDecode).
+Proof.
+  intros Ha Hv. induction Ha as [|[k0 [c0 v0]] a Hx _ IH]; cbn [app visit map snd].
+  - unfold do_walk. now rewrite Hv.
+  - cbn [snd] in Hx. unfold do_walk at 1. rewrite Hx. now rewrite IH.
+Qed.
+
+Lemma visit_all_decodable jv (a : table) :
+  Forall (fun p => jv (snd (snd p)) = true) a ->
+  visit (do_walk jv WAll) a = (map snd a, None).
+Proof.
+  intros Ha. induction Ha as [|[k0 [c0 v0]] a Hx _ IH]; cbn [visit map snd]; [reflexivity|].
+  cbn [snd] in Hx. unfold do_walk at 1. rewrite Hx. now rewrite IH.
+Qed.
